@@ -33,10 +33,15 @@ Definition within (cut : option Z) (x : Z) : bool :=
 
 Section Dense.
 Variable n : nat.
-Variable A : mat G.          (* A_mat *)
+Variable Ain : mat G.        (* the argument A *)
 Variable S : mat Z.          (* spectrum *)
 Variable K : mat Z.          (* skew *)
 Variable cut : option Z.     (* cutoff *)
+
+(* A = A.transpose()  (first statement of the kernel: the tensor is stored at
+   the row-major index a*n+b, i.e. the column-stacked index of the transposed
+   problem) *)
+Definition A : mat G := mk n n (fun a b => gget Ain b a).
 
 (* for a..: for b..: if fabs(skew[a,b]) < cutoff: for k..:
      ac_term[a,b] += A[a,k]*A[k,b]*spectrum[a,k]
